@@ -66,8 +66,12 @@ struct Gen
     atomsFull.push_back(n); atomsFull.push_back(Variant(true)); atomsFull.push_back(Variant(false));
     atomsFull.push_back(Variant(0)); atomsFull.push_back(Variant(-1)); atomsFull.push_back(Variant(INT_MIN)); atomsFull.push_back(Variant(INT_MAX));
     atomsFull.push_back(Variant((int64)LLONG_MIN)); atomsFull.push_back(Variant((int64)LLONG_MAX)); atomsFull.push_back(Variant((int64)5));
+    // digit-count and precision boundaries of 64-bit integers (values a double cannot hold)
+    atomsFull.push_back(Variant((int64)(LLONG_MIN + 1))); atomsFull.push_back(Variant((int64)(LLONG_MAX - 1)));
+    atomsFull.push_back(Variant((int64)-1000000000000000001LL)); atomsFull.push_back(Variant((int64)-999999999999999999LL));
+    atomsFull.push_back(Variant((int64)999999999999999999LL)); atomsFull.push_back(Variant((int64)9007199254740993LL));
     for(size_t i = 0; i < strs.size(); ++i) atomsFull.push_back(Variant(String(strs[i].data(), strs[i].size())));
-    size_t pick[] = {0, 1, 3, 4, 7, 10, 11, 12, 13, 15, 20};
+    size_t pick[] = {0, 1, 3, 4, 7, 12, 16, 17, 18, 19, 21, 26};
     for(size_t i = 0; i < sizeof(pick) / sizeof(*pick); ++i) atomsSmall.push_back(atomsFull[pick[i]]);
     keys.push_back(String("")); keys.push_back(String("a")); keys.push_back(String("\"")); keys.push_back(String("\n\\"));
   }
@@ -109,6 +113,28 @@ struct Gen
     for(int k = 1; k <= n; ++k) { cur.push_back(k); compositions(n - k, cur, out); cur.pop_back(); }
   }
 };
+
+// Variant::operator== converts between number types; an integer must come back as an integer with the identical value
+static bool isInteger(const Variant& v) { Variant::Type t = v.getType(); return t == Variant::intType || t == Variant::uintType || t == Variant::int64Type || t == Variant::uint64Type; }
+static bool sameNumbers(const Variant& a, const Variant& b)
+{
+  if(isInteger(a)) return isInteger(b) && a.toInt64() == b.toInt64() && a.toUInt64() == b.toUInt64();
+  if(a.getType() == Variant::listType)
+  {
+    if(b.getType() != Variant::listType || a.toList().size() != b.toList().size()) return false;
+    List<Variant>::Iterator j = b.toList().begin();
+    for(List<Variant>::Iterator i = a.toList().begin(), end = a.toList().end(); i != end; ++i, ++j) if(!sameNumbers(*i, *j)) return false;
+    return true;
+  }
+  if(a.getType() == Variant::mapType)
+  {
+    if(b.getType() != Variant::mapType || a.toMap().size() != b.toMap().size()) return false;
+    HashMap<String, Variant>::Iterator j = b.toMap().begin();
+    for(HashMap<String, Variant>::Iterator i = a.toMap().begin(), end = a.toMap().end(); i != end; ++i, ++j) if(!sameNumbers(*i, *j)) return false;
+    return true;
+  }
+  return true;
+}
 
 // ---------------------------------------------------------------- stripComments reference
 static std::string stripRef(const std::string& s)
@@ -220,7 +246,7 @@ int main(int argc, char** argv)
         if(n >= 2) vf::hit("distinct_nontrivial");
         if(!p.parse((const char*)e.p, w))
           vf::violation("C15:json:roundtrip", cs, vf::fmt("serialised text is rejected: line %d column %d: %s", p.getErrorLine(), p.getErrorColumn(), (const char*)p.getErrorString()));
-        else if(!(w == ts[i]) || !(ts[i] == w))
+        else if(!(w == ts[i]) || !(ts[i] == w) || !sameNumbers(ts[i], w))
         {
           String again = Json::toString(w);
           vf::violation("C15:json:roundtrip", cs, "re-parsed tree differs; it serialises as '" + vf::show(std::string((const char*)again, again.length())) + "'");
